@@ -46,6 +46,9 @@ CHECKS = {
  "C17": ("exploration", "runtime monitor: write histories over 20 write routes on instances of freshly declared structs; invariant walker over the live instances after every step against a declaration model",
          "Random histories of constructions and field writes through every route (functions, dot paths, infix and index assignment, pointers, JSON/msgpack decoding, nested paths, element writes), with ill-typed, undeclared and exactly matching values and a redeclaration in between; after every step each live instance is inspected through the exported hash fields against the declaration in force at its creation; rejected writes must not change the instance and matching writes must succeed.",
          "Trusted: the declaration model (arrays typed by their first element, as the language defines); one recorded finding (unchecked element writes into slice fields).", "DESIGN.md §4.C17"),
+ "C18": ("exploration", "runtime monitor: canary integers on every member of random package trees, every path accessed through read/call/write routes from outside and through inside getters, judged by a visibility model",
+         "Random trees of nested packages with value, function and hash members (upper/lower/underscore/non-ASCII first runes) are built in the real interpreter; every member path is accessed from outside through the package, aliases and a hash holding it; a private read is observed when the member's unique canary shows up, a private write when the package's own getter reports a changed value; public paths must resolve and inside code must keep access.",
+         "Trusted: the 30-line visibility model (capitalisation at the last hop and before entering a hash; packages traversable; hash keys are not members).", "DESIGN.md §4.C18"),
 }
 
 NA_REASON = {}
